@@ -65,7 +65,7 @@ def strategy(tier):
         # sizes: small, and a few beyond the places where chunked / fast paths are usually put (65, 80, 257, 300)
         st.sampled_from([0, 1, 2, 3, 4, 5] * 25 + [65, 80, 257, 300]),
         st.lists(st.lists(st.integers(0, 13), max_size=5), max_size=5),
-        st.integers(0, 12), prior, st.sampled_from([0, 0, 0, 1, 2, 3, 4]), st.integers(0, 7), st.lists(st.integers(0, 4), max_size=3),
+        st.integers(0, 12), prior, st.sampled_from([0, 0, 0, 1, 2, 3, 4, 5]), st.integers(0, 7), st.lists(st.integers(0, 4), max_size=3),
     )
     return st.one_of(d, m)
 
@@ -283,6 +283,11 @@ def check_matrix(case):
     elif bad == 4 and n > 0:
         side = side[:-1]
         label = "side-too-short"
+    elif bad == 5 and n >= 2:
+        # one row too long and the next one too short: the number of cells is still n * n
+        rows[pos % n].append(1)
+        rows[(pos + 1) % n].pop()
+        label = "ragged-rows-with-n*n-cells"
     if label != "ok":
         extra = [x for x in side if all(x is not v for v in vs)]
         bext = snap(extra)
